@@ -250,6 +250,97 @@ def limit_memory(gib=8):
         pass
 
 
+def _is_uint_item(data, s, e):
+    mt, _v, p = cb_read_head(data, s)
+    return mt == 0 and p == e
+
+
+def _is_eid_item(data, s, e):
+    t, p = cb_parse(data, s)
+    if p != e or t[0] != 4 or t[1] != 2:
+        return False
+    sch, ssp = t[2]
+    if sch[0] != 0:
+        return False
+    if sch[1] == 1:
+        if ssp[0] == 0:
+            return ssp[1] == 0
+        if ssp[0] != 3:
+            return False
+        try:
+            ssp[2].decode('utf8')
+        except UnicodeDecodeError:
+            return False
+        return True
+    if sch[1] == 2:
+        return ssp[0] == 4 and ssp[1] >= 1 and all(k[0] == 0 for k in ssp[2])
+    return False
+
+
+def rfc_strict_ok(data):
+    ''' Independent strict RFC 9171 reading of the octets (block framing and the types of every field of
+    the primary and canonical blocks; BTSD opaque). True = a well-formed bundle. '''
+    try:
+        blocks = split_blocks(data)
+        for i, blk in enumerate(blocks):
+            it = blk['items']
+            ct = blk['crc_type']
+            if ct > 2:
+                return False
+            if i == 0:
+                if not all(_is_uint_item(data, *it[k]) for k in (0, 1, 2, 7)):
+                    return False
+                flags = cb_read_head(data, it[1][0])[1]
+                n = 8 + (2 if flags & 1 else 0) + (1 if ct else 0)
+                if len(it) != n or not all(_is_eid_item(data, *it[k]) for k in (3, 4, 5)):
+                    return False
+                t, p = cb_parse(data, it[6][0])
+                if t[0] != 4 or t[1] != 2 or any(k[0] != 0 for k in t[2]):
+                    return False
+                if flags & 1 and not all(_is_uint_item(data, *it[k]) for k in (8, 9)):
+                    return False
+            else:
+                if len(it) != 5 + (1 if ct else 0) or not all(_is_uint_item(data, *it[k]) for k in (0, 1, 2, 3)):
+                    return False
+                if cb_read_head(data, it[4][0])[0] != 2:
+                    return False
+            if ct:
+                mt, ln, _p = cb_read_head(data, it[-1][0])
+                if mt != 2 or ln != 2 * ct:
+                    return False
+        return True
+    except (ValueError, IndexError):
+        return False
+
+
+def slot_text_audit(received, obs):
+    ''' byte-string slots (BTSD, CRC value) of the received octets that hold a *text string* while the
+    decoded field value is an octet string: [(block index, slot)]. A text string is not a byte string
+    (RFC 8949 major types 3 and 2); the code decodes such a field to "no value". '''
+    out = []
+    try:
+        blocks = split_blocks(received)
+    except (ValueError, IndexError):
+        return out
+    vals = [obs['primary']] + list(obs['blocks'])
+    if len(vals) != len(blocks):
+        return out
+    for i, (blk, v) in enumerate(zip(blocks, vals)):
+        it = blk['items']
+        slots = []
+        if i == 0:
+            if blk['crc_type'] in (1, 2) and len(it) in (9, 11):
+                slots.append(('crc', it[-1]))
+        else:
+            slots.append(('btsd', it[4]))
+            if len(it) == 6:
+                slots.append(('crc', it[5]))
+        for name, (s, _e) in slots:
+            if received[s] >> 5 == 3 and v.get(name) is not None:
+                out.append((i, name))
+    return out
+
+
 def crc_bitwise(width, poly_reflected, data):
     ''' bit-at-a-time reflected CRC, init = xorout = all ones (independent of the crcmod stub) '''
     mask = (1 << width) - 1
@@ -807,6 +898,11 @@ def spec_rfc_bytes(spec):
 # ---------------------------------------------------------------- real objects
 
 _REAL = {}
+
+
+def repo_root():
+    import os
+    return os.environ.get('VERIF_REPO', '/repo')
 
 
 def real():
